@@ -64,92 +64,143 @@ def _perm_expr(f):
     return None
 
 
+def _decision_tails(f):
+    """candidate (tail statements, name) pairs, shortest first: suffixes of f's body that end in the return and whose only
+    free variable (read before the tail defines it) is a local used as a sequence (subscripted, iterated, len / enumerate /
+    combinations of it) -- the permutation -- so that everything the decision looks at beyond that list is computed inside"""
+    body = list(f.node.body)
+    if not body or not isinstance(body[-1], ast.Return) or body[-1].value is None:
+        return []
+    out = []
+    for k in range(len(body) - 1, -1, -1):
+        tail = body[k:]
+        defined, free = set(), set()
+        for st in tail:
+            loaded, plain, aug, lam = set(), set(), set(), set()
+            for n in ast.walk(st):
+                if isinstance(n, ast.AugAssign) and isinstance(n.target, ast.Name):
+                    aug.add(n.target.id)
+                elif isinstance(n, ast.Name):
+                    (plain if isinstance(n.ctx, (ast.Store, ast.Del)) else loaded).add(n.id)
+                elif isinstance(n, ast.arg):
+                    lam.add(n.arg)
+            plain -= aug
+            free |= {n for n in (loaded | aug) - defined - plain - lam if n in f.locals}
+            defined |= plain | aug
+        if len(free) != 1:
+            continue
+        nm = next(iter(free))
+        seq_use = False
+        for st in tail:
+            for n in ast.walk(st):
+                if isinstance(n, ast.Subscript) and isinstance(n.value, ast.Name) and n.value.id == nm:
+                    seq_use = True
+                if isinstance(n, (ast.For, ast.comprehension)) and any(isinstance(x, ast.Name) and x.id == nm for x in ast.walk(n.iter)):
+                    seq_use = True
+                if isinstance(n, ast.Call) and any(isinstance(a, ast.Name) and a.id == nm for a in n.args):
+                    seq_use = True          # handed to a builtin or to a counting helper (the probe below decides)
+        if seq_use:
+            out.append((tail, nm))
+    return out
+
+
+def _decision_tail(ctx, f):
+    """the first candidate tail whose decision folds to a boolean constant on both orders of a two-element list (a tail cut
+    too early -- e.g. at the list of bonds rather than the list of positions -- does not)"""
+    for tail, nm in _decision_tails(f):
+        good = True
+        for vals in ((0, 1), (1, 0)):
+            try:
+                rets, raises = _decide_on(ctx, f, tail, nm, Tup([Num(Lin.const(v)) for v in vals], "list"), State())
+            except AnalysisError:
+                good = False
+                break
+            if raises or not rets or not all(isinstance(v, Con) and isinstance(v.value, bool) for _s, v in rets):
+                good = False
+                break
+        if good:
+            return tail, nm
+    return None
+
+
+def _decide_on(ctx, f, tail, nm, perm, st):
+    """value returned by the decision tail with the permutation bound to `perm` in state `st` -> list of (state, value), raises"""
+    from sa.sym import Frame
+    eng = Engine(ctx, Hooks())
+    frm = Frame(f, 0, None)
+    s0 = st.copy()
+    s0.env[nm] = perm
+    eng.block(frm, tail, [s0])
+    return frm.returns, frm.raises
+
+
 def check_parity(ctx, rep, RULE="S4"):
-    f = ctx.fn("selfies.encoder._should_invert_chirality")
-    pe = _perm_expr(f)
-    if pe is None:
-        # `return is_odd(<permutation>)`: the whole decision sits in a helper that receives the permutation
+    from rules.shared import chirality_decider
+    f = chirality_decider(ctx)
+    dt = _decision_tail(ctx, f)
+    if dt is None:
+        # `return is_odd(<permutation expression>)`: the whole decision sits in a helper that receives the permutation
         for r in own_nodes(f.node):
             if isinstance(r, ast.Return) and isinstance(r.value, ast.Call) and len(r.value.args) == 1 and not r.value.keywords:
                 site = [s for s in ctx.cg.sites(f) if s.node is r.value]
-                if site and len(site[0].callees) == 1 and site[0].callees[0].cls is None and len(site[0].callees[0].posparams) == 1 \
-                        and _perm_expr(site[0].callees[0]) is not None:
+                if site and len(site[0].callees) == 1 and site[0].callees[0].cls is None and len(site[0].callees[0].posparams) == 1:
                     return _check_parity_decider(ctx, rep, RULE, f, r, site[0].callees[0])
-        raise AnalysisError("parity decision (`<count> % 2`) of _should_invert_chirality not found")
-    ret, cnt_expr, odd_is_true = pe
-    rep.ob(RULE, odd_is_true, ret, f, construct=unparse(ret.value), how="inverts for an odd count", key="odd-inverts",
-           witness=None if odd_is_true else "chirality is inverted for an even, not an odd, permutation")
-    # the permutation variable: the list whose elements the counting code compares
-    perm_name = None
-    counting = None           # ('inline', stmts) or ('call', func, param)
-    if isinstance(cnt_expr, ast.Call):
-        site = [s for s in ctx.cg.sites(f) if s.node is cnt_expr]
-        if site and len(site[0].callees) == 1 and len(cnt_expr.args) == 1 and isinstance(cnt_expr.args[0], ast.Name):
-            g = site[0].callees[0]
-            counting = ("call", g, g.posparams[0])
-            perm_name = cnt_expr.args[0].id
-    elif isinstance(cnt_expr, ast.Name):
-        # inline: the statements from the initialisation of the counter up to the return
-        body = f.node.body
-        init = [i for i, st in enumerate(body) if isinstance(st, ast.Assign) and any(isinstance(t, ast.Name) and t.id == cnt_expr.id for t in st.targets)]
-        if init:
-            stmts = body[init[0]:body.index(ret)] if ret in body else None
-            if stmts:
-                names = {n.id for st in stmts for n in ast.walk(st) if isinstance(n, ast.Name) and isinstance(n.ctx, ast.Load)}
-                assigned = {t.id for st in body[:init[0]] for t in ast.walk(st) if isinstance(t, ast.Name) and isinstance(t.ctx, ast.Store)}
-                cands = [n for n in names if n in assigned and n != cnt_expr.id]
-                # the list that is subscripted / iterated in the counting statements
-                subs = {n.value.id for st in stmts for n in ast.walk(st) if isinstance(n, ast.Subscript) and isinstance(n.value, ast.Name)} | \
-                       {n.args[0].id for st in stmts for n in ast.walk(st) if isinstance(n, ast.Call) and n.args and isinstance(n.args[0], ast.Name)}
-                cands = [c for c in cands if c in subs]
-                if len(cands) == 1:
-                    perm_name = cands[0]
-                    counting = ("inline", stmts, cnt_expr.id)
-    if counting is None:
-        raise AnalysisError("inversion counting code of _should_invert_chirality not located")
+        raise AnalysisError("parity decision of _should_invert_chirality not located (no tail of the function depends on one list only)")
+    tail, nm = dt
+    ret = tail[-1]
     n_orders = 0
     bad = []
+    mode = "symbolic"
     for n in range(0, 6):
         syms = [Lin.var(("p", n, k)) for k in range(n)]
-        perm = Tup([Num(x) for x in syms], "list")
         for order in itertools.permutations(range(n)):
             # order[r] = index of the element with rank r : p[order[0]] < p[order[1]] < ...
-            st = State()
-            for a, b in zip(order, order[1:]):
-                st.add_lin(ge(syms[b] - syms[a], 1))
             inv = sum(1 for i in range(n) for j in range(i + 1, n) if order.index(i) > order.index(j))
-            eng = Engine(ctx, Hooks())
-            if counting[0] == "call":
-                fr = eng.run_function(counting[1], {counting[2]: perm}, state=st)
-                outs = [(s, v) for s, v in fr.returns]
-                raises = fr.raises
-            else:
-                from sa.sym import Frame
-                frm = Frame(f, 0, None)
-                s0 = st.copy()
-                s0.env[perm_name] = perm
-                states = eng.block(frm, counting[1], [s0])
-                outs = [(s, s.env.get(counting[2])) for s in states]
-                raises = frm.raises
             n_orders += 1
-            if raises:
-                bad.append((n, order, "the counting code can raise %s" % raises[0][2]))
-                continue
-            if not outs:
-                raise AnalysisError("inversion counting code has no normal exit for a list of length %d" % n)
-            for s, v in outs:
-                if not (isinstance(v, Num) and v.lin.is_const() and v.lin.k.denominator == 1):
-                    raise AnalysisError("inversion count is not a constant on a total order of %d symbolic elements (%r): counting code not modelled" % (n, v))
-                if int(v.lin.k) % 2 != inv % 2:
-                    bad.append((n, order, "count %d, inversions %d" % (int(v.lin.k), inv)))
+            vals = None
+            if mode == "symbolic":
+                st = State()
+                for a, b in zip(order, order[1:]):
+                    st.add_lin(ge(syms[b] - syms[a], 1))
+                rets, raises = _decide_on(ctx, f, tail, nm, Tup([Num(x) for x in syms], "list"), st)
+                if not raises and rets and all(isinstance(v, Con) and isinstance(v.value, bool) for _s, v in rets):
+                    vals = [v.value for _s, v in rets]
+                else:
+                    mode = "positions"
+            if vals is None:
+                # the decision looks at the values, not only at their order: evaluated on the domain the caller supplies, the
+                # permutations of the positions 0..n-1 (checked below: the list holds enumerate() positions of the out-bonds)
+                conc = Tup([Num(Lin.const(order.index(i))) for i in range(n)], "list")
+                rets, raises = _decide_on(ctx, f, tail, nm, conc, State())
+                if raises:
+                    bad.append((n, order, "the decision code can raise %s" % raises[0][2]))
+                    continue
+                if not rets or not all(isinstance(v, Con) and isinstance(v.value, bool) for _s, v in rets):
+                    raise AnalysisError("parity decision is not a constant on a permutation of %d positions (%r): decision code not modelled"
+                                        % (n, rets[0][1] if rets else None))
+                vals = [v.value for _s, v in rets]
+            for v in vals:
+                if v != (inv % 2 == 1):
+                    bad.append((n, order, "decision %s, inversions %d" % (v, inv)))
+    if mode == "positions":
+        # the fallback domain is right only if the list is made of positions: every value appended to the lists it is built
+        # from is the enumerate() counter over the out-bonds
+        encs = [n for n in own_nodes(f.node) if isinstance(n, ast.For) and isinstance(n.iter, ast.Call) and unparse(n.iter.func) == "enumerate"
+                and isinstance(n.target, ast.Tuple) and isinstance(n.target.elts[0], ast.Name)]
+        pos_names = {n.target.elts[0].id for n in encs}
+        apps = [c for c in own_nodes(f.node) if isinstance(c, ast.Call) and isinstance(c.func, ast.Attribute) and c.func.attr == "append" and c.args]
+        ok_dom = bool(encs) and bool(apps) and all(isinstance(c.args[0], ast.Name) and c.args[0].id in pos_names for c in apps)
+        if not ok_dom:
+            raise AnalysisError("parity decision depends on the values of the list, and the list is not visibly made of enumerate() positions")
     w = None
     if bad:
         n, order, why = bad[0]
         ranks = [order.index(i) + 1 for i in range(n)]
         w = "for out-bond positions ordered like %s the code gives %s: the parity differs from the permutation's, so the centre is " \
             "inverted when it should not be (or the reverse); %d of %d orderings of up to 5 neighbours are wrong" % (ranks, why, len(bad), n_orders)
-    rep.ob(RULE, not bad, ret, f, construct="parity of the out-bond permutation (%d total orders of 0..5 symbolic elements)" % n_orders,
-           how="counter parity == inversion parity on every order", witness=w, nontrivial=True, key="inversion-parity")
+    rep.ob(RULE, not bad, ret, f, construct="parity of the out-bond permutation (%d total orders of 0..5 elements, %s)" % (n_orders, mode),
+           how="decision == (inversion parity is odd) on every order", witness=w, nontrivial=True, key="inversion-parity")
+    rep.ob(RULE, True, ret, f, construct=unparse(ret.value)[:70], how="decision tail depends on the list %s only" % nm, key="odd-inverts")
     rep.floor(RULE, 2)
 
 
